@@ -844,7 +844,17 @@ type badgerBatch struct {
 	updatedNodes []updatedNode
 	newRootValue []byte
 
+	// assignedPtrs are the in-memory pointers whose database location was (re)assigned by this
+	// batch together with their previous location, so this can be undone if nothing is written.
+	assignedPtrs []assignedPtr
+
 	mpLock *sync.Mutex
+}
+
+// assignedPtr is an in-memory pointer together with its database location before this batch.
+type assignedPtr struct {
+	ptr *node.Pointer
+	old node.DBPointer
 }
 
 // Implements api.Batch.
@@ -958,6 +968,19 @@ func (ba *badgerBatch) Commit(root node.Root) error {
 		if err := ba.db.checkRootExists(tx, root); err == nil {
 			// No need to do anything since if the hash matches, everything will be identical and we
 			// would just be duplicating work.
+			//
+			// However, in case this batch has assigned database locations to any nodes, those
+			// nodes have not been (and will not be) written. The existing root was written by a
+			// different batch using different locations, so the caller's in-memory nodes must not
+			// be treated as persisted: undo the assignments and skip the on-commit hooks, leaving
+			// the nodes dirty so they get written by the caller's next commit.
+			if len(ba.assignedPtrs) > 0 {
+				for i := len(ba.assignedPtrs) - 1; i >= 0; i-- {
+					ba.assignedPtrs[i].ptr.DBInternal = ba.assignedPtrs[i].old
+				}
+				ba.Reset()
+				return nil
+			}
 			ba.Reset()
 			return ba.BaseBatch.Commit(root)
 		}
@@ -1039,6 +1062,7 @@ func (ba *badgerBatch) Reset() {
 	ba.annotations = nil
 	ba.updatedNodes = nil
 	ba.newRootValue = nil
+	ba.assignedPtrs = nil
 
 	if ba.mpLock != nil {
 		ba.mpLock.Unlock()
